@@ -180,7 +180,7 @@ Proof.
   intros H. destruct o as [k fs|p n fs|k v dl ex tr|k|sp fs off|rid|rid|sp]; simpl.
   - rewrite do_get_pown; auto.
   - unfold do_pget. destruct (get_with_prefix fs p n (view s (t_ws tx))) as [e|]; auto.
-    destruct (own e); auto.
+    destruct (own e); auto. simpl. rewrite H. reflexivity.
   - rewrite do_set_pown; auto.
   - unfold do_delete. pose proof (do_get_pown s tx k [FExp; FDel]) as G.
     destruct (do_get s tx k [FExp; FDel]) as [tx' b]. simpl in G.
